@@ -124,9 +124,15 @@ func (b *Broadcaster[T]) Broadcast(value T) {
 // the subscribers. The Broadcaster will be a no-op after this call.
 func (b *Broadcaster[T]) Close() {
 	defer b.wg.Wait()
-	b.lock.Lock()
+	// Signal closing before taking the lock: a Broadcast that is blocked on a
+	// subscriber which is not reading holds the lock, and is only released by
+	// closeCh.
 	if b.closed.CompareAndSwap(false, true) {
 		close(b.closeCh)
 	}
+	// Taking the lock orders Close after any in-progress Subscribe, so that its
+	// wg.Add cannot race with wg.Wait.
+	b.lock.Lock()
+	//nolint:staticcheck
 	b.lock.Unlock()
 }
